@@ -139,7 +139,7 @@ package graphql
 //@   assigns class:executionContext.Errors, class:executionContext.Context, class:FormattedError, class:M|*graphql.Object|*graphql.selectionPlan, class:graphql.selectionPlan, class:graphql.fieldPlan, class:M|string|int, class:M|string|bool, class:E|*graphql.fieldPlan, class:E|*ast.Field, class:M|string|interface, class:E|interface, class:E|string, class:graphql.fragmentGate, class:graphql.fragmentTrace, class:E|graphql.collectStep, class:F|[]graphql.collectStep, class:M|string|*graphql.fragmentTrace, class:E|graphql.fragmentSpreadEdge, class:M|string|*graphql.fragmentGate, class:E|func, class:graphql.Plan.expanding, class:M|*ast.Field|bool, class:M|*graphql.fieldPlan|bool, class:M|*graphql.fragmentTrace|bool
 
 //@ func resolvePlannedField
-//@   props C04 C20 C06 C17 C18
+//@   props C04 C20 C06 C17 C18 C05
 //@   assigns class:executionContext.Errors, class:executionContext.Context, class:FormattedError, class:M|*graphql.Object|*graphql.selectionPlan, class:graphql.selectionPlan, class:graphql.fieldPlan, class:M|string|int, class:M|string|bool, class:E|*graphql.fieldPlan, class:E|*ast.Field, class:M|string|interface, class:E|interface, class:E|string, class:graphql.fragmentGate, class:graphql.fragmentTrace, class:E|graphql.collectStep, class:F|[]graphql.collectStep, class:M|string|*graphql.fragmentTrace, class:E|graphql.fragmentSpreadEdge, class:M|string|*graphql.fragmentGate, class:E|func, class:graphql.Plan.expanding, class:M|*ast.Field|bool, class:M|*graphql.fieldPlan|bool, class:M|*graphql.fragmentTrace|bool
 //@   nosafety
 //@   requires eCtx != nil && fp != nil && fp.fieldDef != nil
@@ -151,7 +151,7 @@ package graphql
 //@   at[C20] call resolveFn: assert arg0.Info.ParentType == parentType
 //@   at[C20] call resolveFn: assert arg0.Info.ReturnType == fp.returnType
 //@   at[C20] call resolveFn: assert arg0.Info.RootValue == eCtx.Root && arg0.Info.Operation == eCtx.Operation && arg0.Info.VariableValues == eCtx.VariableValues && arg0.Info.FieldASTs == fp.fieldASTs
-//@   at[C20,C06,C12] call resolveFn: assert fresh(arg0.Args) || fp.args.hasVariables
+//@   at[C20,C06,C12,C05] call resolveFn: assert fresh(arg0.Args) || fp.args.hasVariables
 //@   ensures[C04] resolveFnError != nil ==> result == nil
 //@   ensures[C04] ok
 // C17: the resolve phase the extensions started for this field is finished exactly once on every way out
@@ -698,6 +698,43 @@ package graphql
 //@   ensures typeis(node, "*ast.InlineFragment") && as(node, "*ast.InlineFragment") != nil && as(node, "*ast.InlineFragment").TypeCondition == nil && (typeis(GetNamed_0(old(TypeInfo.Type_0(ti))), "*graphql.Object") || typeis(GetNamed_0(old(TypeInfo.Type_0(ti))), "*graphql.Interface") || typeis(GetNamed_0(old(TypeInfo.Type_0(ti))), "*graphql.Union")) ==> ti.typeStack[len(ti.typeStack)-1] == GetNamed_0(old(TypeInfo.Type_0(ti)))
 //@   ensures typeis(node, "*ast.InlineFragment") && as(node, "*ast.InlineFragment") != nil && as(node, "*ast.InlineFragment").TypeCondition == nil ==> !typeis(ti.typeStack[len(ti.typeStack)-1], "*graphql.List") && !typeis(ti.typeStack[len(ti.typeStack)-1], "*graphql.NonNull")
 //@   ensures typeis(node, "*ast.VariableDefinition") || typeis(node, "*ast.Argument") ==> len(ti.inputTypeStack) == old(len(ti.inputTypeStack)) + 1 && len(ti.typeStack) == old(len(ti.typeStack)) && len(ti.parentTypeStack) == old(len(ti.parentTypeStack))
+
+// leaving a node undoes exactly what entering it pushed or set (the type stacks stay aligned with the traversal)
+//@ func TypeInfo.Leave
+//@   props C14 C02
+//@   nosafety
+//@   requires ti != nil && node != nil
+//@   opt invoke.GetKind=pure
+//@   ensures calls("GetKind") == 1
+//@   ensures lastresult("GetKind") == "Directive" ==> ti.directive == nil && len(ti.inputTypeStack) == old(len(ti.inputTypeStack)) && len(ti.typeStack) == old(len(ti.typeStack))
+//@   ensures lastresult("GetKind") == "Argument" ==> ti.argument == nil && (old(len(ti.inputTypeStack)) > 0 ==> len(ti.inputTypeStack) == old(len(ti.inputTypeStack)) - 1) && len(ti.typeStack) == old(len(ti.typeStack))
+//@   ensures lastresult("GetKind") == "VariableDefinition" || lastresult("GetKind") == "ListValue" || lastresult("GetKind") == "ObjectField" ==> (old(len(ti.inputTypeStack)) > 0 ==> len(ti.inputTypeStack) == old(len(ti.inputTypeStack)) - 1) && len(ti.typeStack) == old(len(ti.typeStack)) && len(ti.parentTypeStack) == old(len(ti.parentTypeStack)) && len(ti.fieldDefStack) == old(len(ti.fieldDefStack))
+//@   ensures lastresult("GetKind") == "SelectionSet" ==> (old(len(ti.parentTypeStack)) > 0 ==> len(ti.parentTypeStack) == old(len(ti.parentTypeStack)) - 1) && len(ti.typeStack) == old(len(ti.typeStack)) && len(ti.inputTypeStack) == old(len(ti.inputTypeStack)) && len(ti.fieldDefStack) == old(len(ti.fieldDefStack))
+//@   ensures lastresult("GetKind") == "Field" ==> (old(len(ti.fieldDefStack)) > 0 ==> len(ti.fieldDefStack) == old(len(ti.fieldDefStack)) - 1) && (old(len(ti.typeStack)) > 0 ==> len(ti.typeStack) == old(len(ti.typeStack)) - 1) && len(ti.inputTypeStack) == old(len(ti.inputTypeStack)) && len(ti.parentTypeStack) == old(len(ti.parentTypeStack))
+//@   ensures lastresult("GetKind") == "OperationDefinition" || lastresult("GetKind") == "InlineFragment" || lastresult("GetKind") == "FragmentDefinition" ==> (old(len(ti.typeStack)) > 0 ==> len(ti.typeStack) == old(len(ti.typeStack)) - 1) && len(ti.inputTypeStack) == old(len(ti.inputTypeStack)) && len(ti.parentTypeStack) == old(len(ti.parentTypeStack)) && len(ti.fieldDefStack) == old(len(ti.fieldDefStack))
+
+// every rule's visitor takes part in the one parallel traversal of the document, in rule order, wrapped in
+// the type tracking of the SAME TypeInfo the rules' context reads (a rule left out is never run: C14 "several
+// visitors run in parallel each observe the event sequence they would observe alone", C02)
+//@ extern func github.com/graphql-go/graphql/language/visitor::Visit
+//@ extern func github.com/graphql-go/graphql/language/visitor::VisitInParallel
+//@   assigns nothing
+//@ extern func github.com/graphql-go/graphql/language/visitor::VisitWithTypeInfo
+//@   assigns nothing
+//@ func VisitUsingRules
+//@   props C14 C02
+//@   nosafety
+//@   opt callback.rule=pure
+//@   loop 1 over rules
+//@   loop 1 invariant len(visitors) == rangeindex + 1 && rangeindex + 1 <= len(rules)
+//@   loop 1 ensures len(visitors) == atloop(1, len(visitors)) + 1 && visitors[len(visitors)-1] == lastresult("rule").VisitorOpts
+//@   at call rule: assert arg0 == lastresult("NewValidationContext")
+//@   at call NewValidationContext: assert arg0 == schema && arg1 == astDoc && arg2 == typeInfo
+//@   at call VisitInParallel: assert len(arg0) == len(rules)
+//@   at call VisitWithTypeInfo: assert arg0 == typeInfo && arg1 == lastresult("VisitInParallel")
+//@   at call Visit: assert arg0 == astDoc && arg1 == lastresult("VisitWithTypeInfo")
+//@   at call Errors: assert arg0 == lastresult("NewValidationContext")
+//@   ensures calls("Visit") == 1
 
 // ---- type relations and interface implementation (C02, C11) ----------------------------------
 
@@ -1649,7 +1686,7 @@ package graphql
 // As for the depth-first walk: a thunk is called once, and the value it produced (not the thunk) is
 // what is scheduled for descent.
 //@ func dethunkMapBreadthFirst
-//@   props C09 C04 C12
+//@   props C09 C04 C12 C01 C20
 //@   nosafety
 //@   loop[C12] 1 over lastresult("responseKeysInOrder")
 //@   loop[C12] 1 ordered
@@ -1657,7 +1694,7 @@ package graphql
 //@   loop 1 ensures calls("f") > atloop(1, calls("f")) && (typeis(lastresult("f"), "map[string]interface{}") || typeis(lastresult("f"), "[]interface{}")) ==> calls("push") == atloop(1, calls("push")) + 1
 //@   loop 1 ensures calls("f") == atloop(1, calls("f")) && (typeis(v, "map[string]interface{}") || typeis(v, "[]interface{}")) ==> calls("push") == atloop(1, calls("push")) + 1
 //@ func dethunkListBreadthFirst
-//@   props C09 C04
+//@   props C09 C04 C01 C20
 //@   nosafety
 //@   loop 1 ensures calls("f") <= atloop(1, calls("f")) + 1
 //@   loop 1 ensures calls("f") > atloop(1, calls("f")) && (typeis(lastresult("f"), "map[string]interface{}") || typeis(lastresult("f"), "[]interface{}")) ==> calls("push") == atloop(1, calls("push")) + 1
@@ -1666,7 +1703,7 @@ package graphql
 //@   props C02
 //@   nosafety
 //@ func dethunkMapWithBreadthFirstTraversal
-//@   props C09
+//@   props C09 C01 C20 C04
 //@   nosafety
 //@   at call dethunkMapBreadthFirst: assert arg0 == finalResults
 
@@ -2270,3 +2307,86 @@ package graphql
 //@   at[C13,C01] return: assert calls("fieldsInOrder") == 0 && sp != nil ==> fields == old(sp.fields)
 //@   at[C13,C01] return: assert calls("fieldsInOrder") == 1 ==> fields == lastresult("fieldsInOrder")
 //@   at[C13] return: assert !old(sp != nil && sp.conditional) ==> calls("fieldsInOrder") == 0
+
+// ---- a hook that panics, with ANY panic value, is reported as exactly one error (C17) -----------
+//@ func handleExtensionsInits$1
+//@   props C17
+//@   nosafety
+//@   inline
+//@   opt invoke.Init=maypanic
+//@   opt invoke.Name=pure
+//@   nopanic
+//@   ensures returns("Init") == 0 ==> len(errs) == old(len(errs)) + 1
+//@   ensures returns("Init") == 1 ==> len(errs) == old(len(errs))
+//@ func handleExtensionsParseDidStart$1
+//@   props C17
+//@   nosafety
+//@   inline
+//@   opt invoke.ParseDidStart=maypanic
+//@   opt invoke.Name=pure
+//@   nopanic
+//@   ensures returns("ParseDidStart") == 0 ==> len(errs) == old(len(errs)) + 1
+//@   ensures returns("ParseDidStart") == 1 ==> len(errs) == old(len(errs))
+//@ func handleExtensionsParseDidStart$2$1
+//@   props C17
+//@   nosafety
+//@   inline
+//@   opt callback.fn=maypanic
+//@   nopanic
+//@   ensures calls("fn") == 1
+//@   ensures returns("fn") == 0 ==> len(errs) == old(len(errs)) + 1
+//@   ensures returns("fn") == 1 ==> len(errs) == old(len(errs))
+//@ func handleExtensionsValidationDidStart$1
+//@   props C17
+//@   nosafety
+//@   inline
+//@   opt invoke.ValidationDidStart=maypanic
+//@   opt invoke.Name=pure
+//@   nopanic
+//@   ensures returns("ValidationDidStart") == 0 ==> len(errs) == old(len(errs)) + 1
+//@   ensures returns("ValidationDidStart") == 1 ==> len(errs) == old(len(errs))
+//@ func handleExtensionsValidationDidStart$2$1
+//@   props C17
+//@   nosafety
+//@   inline
+//@   opt callback.finishFn=maypanic
+//@   nopanic
+//@   ensures calls("finishFn") == 1
+//@   ensures returns("finishFn") == 0 ==> len(extErrs) == old(len(extErrs)) + 1
+//@   ensures returns("finishFn") == 1 ==> len(extErrs) == old(len(extErrs))
+//@ func handleExtensionsExecutionDidStart$1
+//@   props C17
+//@   nosafety
+//@   inline
+//@   opt invoke.ExecutionDidStart=maypanic
+//@   opt invoke.Name=pure
+//@   nopanic
+//@   ensures returns("ExecutionDidStart") == 0 ==> len(errs) == old(len(errs)) + 1
+//@   ensures returns("ExecutionDidStart") == 1 ==> len(errs) == old(len(errs))
+//@ func handleExtensionsExecutionDidStart$2$1
+//@   props C17
+//@   nosafety
+//@   inline
+//@   opt callback.finishFn=maypanic
+//@   nopanic
+//@   ensures calls("finishFn") == 1
+//@   ensures returns("finishFn") == 0 ==> len(extErrs) == old(len(extErrs)) + 1
+//@   ensures returns("finishFn") == 1 ==> len(extErrs) == old(len(extErrs))
+//@ func handleExtensionsResolveFieldDidStart$1
+//@   props C17
+//@   nosafety
+//@   inline
+//@   opt invoke.ResolveFieldDidStart=maypanic
+//@   opt invoke.Name=pure
+//@   nopanic
+//@   ensures returns("ResolveFieldDidStart") == 0 ==> len(errs) == old(len(errs)) + 1
+//@   ensures returns("ResolveFieldDidStart") == 1 ==> len(errs) == old(len(errs))
+//@ func handleExtensionsResolveFieldDidStart$2$1
+//@   props C17
+//@   nosafety
+//@   inline
+//@   opt callback.finishFn=maypanic
+//@   nopanic
+//@   ensures calls("finishFn") == 1
+//@   ensures returns("finishFn") == 0 ==> len(extErrs) == old(len(extErrs)) + 1
+//@   ensures returns("finishFn") == 1 ==> len(extErrs) == old(len(extErrs))
